@@ -27,6 +27,36 @@ func checkC19(c *Ctx, w *World) {
 	if m == nil || um == nil {
 		return
 	}
+	// ---- C19.unmarshal
+	okU := false
+	var ucall *ssa.Call
+	nU := 0
+	eachInstr(um, func(in ssa.Instruction) {
+		if call, ok := in.(*ssa.Call); ok && call.Call.IsInvoke() && call.Call.Method.Name() == "Unmarshal" {
+			nU++
+			if isLoadOf(oneOrigin(call.Call.Value), "myCodec.protoCodec") && call.Call.Args[0] == ssa.Value(um.Params[1]) && call.Call.Args[1] == ssa.Value(um.Params[2]) && call.Block() == um.Blocks[0] {
+				ucall = call
+			}
+		}
+	})
+	if ucall != nil && nU == 1 {
+		ucs := newCondSpace(um, recOf(eqAtom("delegOK", isVal(ucall), isNil)), "delegOK")
+		okU = true
+		for _, vr := range ucs.VirtualReturns() {
+			v := vr.Vals[0]
+			if v == ssa.Value(ucall) {
+				continue
+			}
+			// a literal nil is the same result when the delegate returned nil on this path
+			isNilC, _ := allOrigins(v, isConstNilOrigin)
+			known, _ := ucs.Implies(vr.Cond, ucs.Atom("delegOK"))
+			if !(isNilC && known) {
+				okU = false
+			}
+		}
+	}
+	c.check(okU, "C19.unmarshal", "Unmarshal delegates", p.pos(um.Pos()), "both arguments go to the wrapped codec and its result is returned (a conforming parser skips the unknown field 2047)", "Unmarshal does not simply delegate to the wrapped codec")
+
 	// wrapped Marshal
 	var inner *ssa.Call
 	n := 0
@@ -106,11 +136,13 @@ func checkC19(c *Ctx, w *World) {
 	// incoming edge), is exactly one of: wrapped error passed through untouched; prefix encoding error reported; success.
 	A := cs.Atom
 	allOK := cs.And(A("innerOK"), A("varintOK"), A("fixedOK"))
-	imp, wit := cs.Implies(cs.Reach(nb), A("innerOK"))
-	c.check(imp, "C19.errors", "framing only after a successful wrapped Marshal", p.ipos(nb), "the prefix is built only when the wrapped Marshal succeeded", "framing proceeds although the wrapped codec failed: "+wit)
+	// (the empty buffer itself may be created anywhere — creating it has no effect; building the prefix starts with the first
+	// encode step)
+	imp, wit := cs.Implies(cs.Reach(ev), A("innerOK"))
+	c.check(imp, "C19.errors", "framing only after a successful wrapped Marshal", p.ipos(ev), "the prefix is built only when the wrapped Marshal succeeded", "framing proceeds although the wrapped codec failed: "+wit)
 	// … and always then: no other condition (payload length, message type, …) lets an encoding leave without the field
-	all, wit2 := cs.Implies(A("innerOK"), cs.Reach(nb))
-	c.check(all, "C19.frame", "every successful encoding is framed", p.ipos(nb), "the prefix is built whenever the wrapped Marshal succeeded — for every payload, including the empty one", "some successfully marshalled payloads are returned without the checksum field: "+wit2)
+	all, wit2 := cs.Implies(A("innerOK"), cs.Reach(ev))
+	c.check(all, "C19.frame", "every successful encoding is framed", p.ipos(ev), "the prefix is built whenever the wrapped Marshal succeeded — for every payload, including the empty one", "some successfully marshalled payloads are returned without the checksum field: "+wit2)
 	knownNil := func(v ssa.Value, cond Bits) bool {
 		if nilErr, _ := allOrigins(v, isConstNilOrigin); nilErr {
 			return true
@@ -137,7 +169,7 @@ func checkC19(c *Ctx, w *World) {
 		switch {
 		case wrappedFail:
 			nWrapped++
-			untouched := !cs.Satisfiable(and(vr.Cond, cs.Reach(nb)))
+			untouched := !cs.Satisfiable(and(vr.Cond, cs.Reach(ev)))
 			c.check(innerErr(vr.Vals[1]) && untouched, "C19.errors", construct+": wrapped error", p.ipos(vr.Ret), "a marshalling error of the wrapped codec is returned as is, and nothing is framed on that path", "the wrapped codec's error is not passed through untouched")
 		case isSucc:
 			nSucc++
@@ -210,35 +242,6 @@ func checkC19(c *Ctx, w *World) {
 	}
 	c.check(okCrc, "C19.crc", "checksum value", p.ipos(ef), "fixed32 = crc32.Checksum(<wrapped encoding>, MakeTable(Castagnoli)): CRC32C of exactly the payload", "the checksum is not the CRC32C of the wrapped encoding")
 
-	// ---- C19.unmarshal
-	okU := false
-	var ucall *ssa.Call
-	nU := 0
-	eachInstr(um, func(in ssa.Instruction) {
-		if call, ok := in.(*ssa.Call); ok && call.Call.IsInvoke() && call.Call.Method.Name() == "Unmarshal" {
-			nU++
-			if isLoadOf(oneOrigin(call.Call.Value), "myCodec.protoCodec") && call.Call.Args[0] == ssa.Value(um.Params[1]) && call.Call.Args[1] == ssa.Value(um.Params[2]) && call.Block() == um.Blocks[0] {
-				ucall = call
-			}
-		}
-	})
-	if ucall != nil && nU == 1 {
-		ucs := newCondSpace(um, recOf(eqAtom("delegOK", isVal(ucall), isNil)), "delegOK")
-		okU = true
-		for _, vr := range ucs.VirtualReturns() {
-			v := vr.Vals[0]
-			if v == ssa.Value(ucall) {
-				continue
-			}
-			// a literal nil is the same result when the delegate returned nil on this path
-			isNilC, _ := allOrigins(v, isConstNilOrigin)
-			known, _ := ucs.Implies(vr.Cond, ucs.Atom("delegOK"))
-			if !(isNilC && known) {
-				okU = false
-			}
-		}
-	}
-	c.check(okU, "C19.unmarshal", "Unmarshal delegates", p.pos(um.Pos()), "both arguments go to the wrapped codec and its result is returned (a conforming parser skips the unknown field 2047)", "Unmarshal does not simply delegate to the wrapped codec")
 }
 
 // writableUses: uses of slice value v (or of slices sharing its backing array) that may write or retain it.
